@@ -1,6 +1,7 @@
 """C15: counters and prefix limits match the RIB.  Same model and harness as C02;
 the oracle recounts from the implementation's own Table::destinations output."""
 from gen import ribcommon as R
+from gen import ribenum as E
 from gen.c02 import Prop as C02
 
 U64 = 1 << 64
@@ -23,9 +24,11 @@ class Prop(C02):
             'peer drop, stale/LLGR/NO_LLGR purges, limit-exceeded insertions and session restarts; non-trivial = some counter or statistic is > 0 '
             'at some step and some removal happened; distinct = distinct sequence of (statistics, counters, totals)')
 
+    enum_which = 'c15'
+
     def gen_cases(self, rng, tier):
         n = 700 if tier == 'quick' else 7000
-        cases = []
+        cases = E.all_enumerated('c15') + (E.state_x_op(limits=3, pairs=True) if tier != 'quick' else [])
         for k in range(n):
             w = dict(ins=10, rem=4, drop=1, dropk=3, restale=2, nhv=1, reconnect=(1 if k % 2 else 0), deferral=0)
             cases.append(R.gen_history(rng, rng.randint(5, 40), limits=(k % 5 != 4), weights=w))
